@@ -183,6 +183,27 @@ def part_history_switches():
             shutil.rmtree(d, ignore_errors=True)
 
 
+def part_defaults_switches():
+    """DerivedDefaults: every switch in its historical position (F30 / F36 / F37 before their repair, and the incomplete
+    repairs that compared values: F38) breaks HistoryIndependent."""
+    for sw in ('LongFollows = TRUE/LongFollows = FALSE', 'LongMark = TRUE/LongMark = FALSE', 'DimFollows = TRUE/DimFollows = FALSE',
+               'DimMark = TRUE/DimMark = FALSE', 'LimMark = TRUE/LimMark = FALSE', 'LimKeepsGiven = TRUE/LimKeepsGiven = FALSE',
+               'ParFollows = TRUE/ParFollows = FALSE'):
+        d = tempfile.mkdtemp(prefix='stspec', dir='/tmp')
+        try:
+            for f in os.listdir(lib.SPEC):
+                if os.path.isfile(os.path.join(lib.SPEC, f)):
+                    shutil.copy(os.path.join(lib.SPEC, f), d)
+            a, b = sw.split('/')
+            p = os.path.join(d, 'MC_DerivedDefaults_quick.cfg')
+            txt = open(p).read().replace('  ' + a, '  ' + b)
+            open(p, 'w').write(txt)
+            r = lib.run_tlc('DerivedDefaults.tla', 'MC_DerivedDefaults_quick.cfg', cwd=d, workers=8, coverage=False, timeout=600, heap='4g')
+            say('HistoryIndependent' in r['violated'], f"DerivedDefaults with '{b}': HistoryIndependent fails (violated: {r['violated']})")
+        finally:
+            shutil.rmtree(d, ignore_errors=True)
+
+
 def part_dlismodel_switches():
     """DlisModel (reference configuration): without the write-time checks the model reproduces F22 / F23."""
     for sw, expect in (('ForeignRefCheck = TRUE/ForeignRefCheck = FALSE', 'RefResolves'), ('HeaderSetCheck = TRUE/HeaderSetCheck = FALSE', 'HeaderOwn')):
@@ -204,6 +225,7 @@ def part_dlismodel_switches():
 def part_models():
     part_cache_switches()
     part_history_switches()
+    part_defaults_switches()
     part_dlismodel_switches()
     for fname, old, new, module, cfg, expect in MODEL_MUTANTS:
         d = tempfile.mkdtemp(prefix='stspec', dir='/tmp')
